@@ -24,6 +24,7 @@ from pydiverse.common import (
 )
 from pydiverse.transform._internal.backend.table_impl import TableImpl
 from pydiverse.transform._internal.backend.targets import Polars, SqlAlchemy, Target
+from pydiverse.transform._internal.errors import NotSupportedError
 from pydiverse.transform._internal.ops import ops
 from pydiverse.transform._internal.ops.op import Ftype
 from pydiverse.transform._internal.pipe.table import Cache
@@ -877,6 +878,9 @@ with SqlImpl.impl_store.impl_manager as impl:
     @impl(ops.shift)
     def _shift(x, by, empty_value=None):
         # `n` and `fill_value` are const parameters, i.e. they arrive as python values
+        if not isinstance(by, int):
+            # a constant expression (e.g. `pdt.lit(1) + 1`): LAG / LEAD is chosen by the sign, which is not known here
+            raise NotSupportedError("SQL backends need a literal integer as `n` of `shift`")
         if by >= 0:
             if empty_value is not None:
                 return sqa.func.LAG(x, by, empty_value, type_=x.type)
